@@ -7,7 +7,8 @@
     [s ++ 0 :: rest] with [s] free of NUL is "the string s, its terminator, and whatever lies behind it";
     a model that looked at [rest] or beyond would return [Crash].  [pton4]/[pton6] stand for
     inet_pton(AF_INET/AF_INET6, ..) > 0 and are arbitrary unless a contract is stated. *)
-From Qv Require Import Common.Bytes Gen.GenAddr Model.InetPton Model.Addr Spec.AddrSpec Proofs.AddrTheorems.
+From Qv Require Import Common.Bytes Gen.GenAddr Model.InetPton Model.Addr Spec.AddrSpec Spec.AddrGrammar Proofs.AddrTheorems
+  Proofs.DomainEquiv Proofs.LocalEquiv Proofs.ParseaddrEquiv Proofs.XtextEquiv Proofs.AddrsyntaxEquiv Proofs.LiteralEquiv.
 
 (** 1. domainvalid() accepts only fully-qualified host names: >= 2 labels of 1..63 letters, digits or hyphens,
     <= 255 octets, last label >= 2 characters and not all-numeric.  (Holds for the tree with
@@ -128,6 +129,91 @@ Theorem C14_char_sign_independent :
   /\ XT_RANGE_OK_ALT = XT_RANGE_OK /\ XT_HEX_OK_ALT = XT_HEX_OK /\ XT_PLAIN_OK_ALT = XT_PLAIN_OK.
 Proof. exact thm_char_sign. Qed.
 Print Assumptions C14_char_sign_independent.
+
+(* ====================================================================================================
+   Second part: EQUIVALENCES between "the C accepts" and the RFC 5321 grammar written as Props
+   (Spec/AddrGrammar.v).  Each deviation of the C from the grammar is a named predicate in the statement.
+   ==================================================================================================== *)
+
+(** Domain.  domainvalid() = 0 iff the name is an RFC 5321 Domain (sub-domain = Let-dig [Ldh-str], i.e. no
+    hyphen at the edge of a label) that is fully qualified, <= 255 octets, with a top-level label of >= 2
+    characters ending in a letter -- or differs from one only by a hyphen at the edge of a label
+    ([edge_hyphen], e.g. -a-.-de is accepted: the property admits hyphens anywhere, RFC 5321 does not).
+    Outside that class it is an equivalence.  The property's own [fqdn] (last label not all-numeric) is wider
+    than what is accepted exactly by the names that do not end in a letter (x.a1 is refused). *)
+Theorem C14_domain_rfc : forall h rest, ~ In 0%N h ->
+  (domainvalid (h ++ 0%N :: rest) = Ok 0 <-> rfc_fqdn h \/ (fqdn_strict h /\ edge_hyphen h))
+  /\ (~ edge_hyphen h -> (domainvalid (h ++ 0%N :: rest) = Ok 0 <-> rfc_fqdn h))
+  /\ (fqdn h -> (fqdn_strict h <-> is_alpha (last h 0%N) = true)).
+Proof.
+  intros h rest H. destruct (domainvalid_rfc h rest H) as [A B]. split; [exact A|]. split; [exact B|exact (fqdn_vs_strict h)].
+Qed.
+Print Assumptions C14_domain_rfc.
+
+(** Local part.  For [lp] without an at sign, followed by the terminator or an at sign: parselocalpart()
+    returns |lp| iff [lp] is [lweak]; and [lp] is an RFC 5321 Local-part (Dot-string / Quoted-string, quoted
+    text as RFC 5322 incl. obsolete controls, pairs only for the quote and the backslash) iff it is accepted,
+    non-empty and outside the class of F-C14-2.  (Needs fixes/C14-quoted-bang.diff: the unpatched quoted-text
+    test omits "!", F-C14-5.)  Not accepted although RFC-valid: an at sign inside a quoted string. *)
+Theorem C14_local_iff : forall lp e rest, e = 0%N \/ e = cAT -> ~ In cAT lp ->
+  (parselocalpart (lp ++ e :: rest) = Ok (Z.of_nat (length lp)) <-> lweak lp)
+  /\ (local_rfc lp <->
+       lp <> [] /\ parselocalpart (lp ++ e :: rest) = Ok (Z.of_nat (length lp)) /\ local_class lp = false).
+Proof.
+  intros lp e rest He Hat. split; [exact (parselocalpart_iff lp e rest He Hat)|exact (local_rfc_iff lp e rest He Hat)].
+Qed.
+Print Assumptions C14_local_iff.
+
+(** Mailbox.  parseaddr() = 3 (4) iff the string is Local-part "@" Domain (address literal) in the exact
+    grammar [mailbox_x]: first at sign ends the local part, the domain is what domainvalid() accepts, a
+    literal is "[" text "]" without a closing bracket inside, dispatched on the tag "IPv6:" to the oracle
+    (pton4: < 16 octets, pton6: < 46 octets).  With the class of F-C14-2 excluded the local part is RFC 5321. *)
+Theorem C14_parseaddr_iff : forall pton4 pton6 s rest rc, ~ In 0%N s -> rc = 3 \/ rc = 4 ->
+  (parseaddr pton4 pton6 (s ++ 0%N :: rest) = Ok rc <-> mailbox_x pton4 pton6 lweak rc s)
+  /\ (mailbox_x pton4 pton6 local_rfc rc s <->
+       parseaddr pton4 pton6 (s ++ 0%N :: rest) = Ok rc /\ local_class (before cAT s) = false).
+Proof.
+  intros pton4 pton6 s rest rc Hs Hrc.
+  split; [exact (parseaddr_iff pton4 pton6 s rest rc Hs Hrc)|exact (parseaddr_rfc_iff pton4 pton6 s rest rc Hs Hrc)].
+Qed.
+Print Assumptions C14_parseaddr_iff.
+
+(** Path (MAIL FROM / RCPT TO argument behind the opening bracket).  addrsyntax() returns the non-zero code
+    rc with *addr = addr and *more = more iff [addrsyntax_post_x]: the line is route ++ a ++ ">" ++ post with
+    the FIRST ">" ending the address, the source route (flags = 1 only) "@dom,...,@dom:" of accepted domains,
+    <= 256 octets and -- deviation -- no comma anywhere behind it; addr = a lower-cased; rc = 3/4: a is a
+    [mailbox_x]; rc = 1: a empty (flags 0) or "postmaster" in any case (flags 1). *)
+Theorem C14_addrsyntax_iff : forall pton4 pton6 s rest flags rc addr more, ~ In 0%N s -> rc <> 0%Z ->
+  ((exists r, addrsyntax pton4 pton6 (s ++ 0%N :: rest) flags = Ok r
+      /\ as_rc r = rc /\ as_addr r = addr /\ as_more r = more)
+   <-> addrsyntax_post_x pton4 pton6 s flags rc addr more).
+Proof. exact addrsyntax_iff. Qed.
+Print Assumptions C14_addrsyntax_iff.
+
+(** AUTH= (xtext -> addrspec_valid), end to end: for the octets [s] behind "AUTH=" and n >= 0,
+    xtextlen() = n iff [xtext_accept s n] (smtp_from_extensions then demands n > 0 and a blank or the end) *)
+Theorem C14_xtext_iff : forall pton4 pton6 s rest n, ~ In 0%N s -> (0 <= n)%Z ->
+  (xtextlen pton4 pton6 (s ++ 0%N :: rest) = Ok n <-> xtext_accept pton4 pton6 s n).
+Proof. exact xtextlen_iff. Qed.
+Print Assumptions C14_xtext_iff.
+
+(** Address literals.  In all theorems above the text inside the brackets is judged by the ORACLE pton4 / pton6
+    (inet_pton of libc).  About the reference implementation the extracted model runs (Model/InetPton.v, glibc's
+    algorithm, compared with libc by the differential run) the accepted language is proved:
+    IPv4: exactly Snum "." Snum "." Snum "." Snum, Snum = decimal 0..255 without a leading zero ([dotted_quad];
+    RFC 5321 would also allow 1*3DIGIT with leading zeros, glibc does not). *)
+Theorem C14_ipv4_literal : forall s, pton4_ref s = true <-> dotted_quad s.
+Proof. exact pton4_ref_iff. Qed.
+Print Assumptions C14_ipv4_literal.
+
+(** IPv6: exactly the grammar [ip6_text] of Spec/AddrGrammar.v -- groups of 1..4 hex digits separated by single
+    colons, at most one "::" (which must stand for at least one group: with it fewer than 16 bytes may be written,
+    without it exactly 16), optionally ending in a dotted quad worth 4 bytes; a leading or trailing single colon is
+    refused.  (Wider than RFC 5321 IPv6-comp, which allows at most 6 groups around "::"; inet_pton allows 7, as
+    RFC 4291 does.) *)
+Theorem C14_ipv6_literal : forall s, pton6_ref s = true <-> ip6_text s.
+Proof. exact pton6_ref_iff. Qed.
+Print Assumptions C14_ipv6_literal.
 
 (** the hypotheses are met by non-trivial inputs *)
 Definition ex_line : bytes :=     (* @a.example.org,@b.example.org:Foo@Bar.example.com> x *)
